@@ -735,6 +735,12 @@ class Engine(object):
         return res
 
     def contains(self, st, node, container, item):
+        if isinstance(container, (bytes, str)):      # concrete substring test (e.g. b"s" in a constant pack format)
+            if isinstance(item, type(container)):
+                return [(st, item in container)]
+            lit = getattr(node, "left", None)
+            if isinstance(lit, ast.Constant) and isinstance(lit.value, type(container)):
+                return [(st, lit.value in container)]
         if isinstance(container, LitSet) and container.conds is not None:
             return [(st, b_or(*[b_and(container.cond(i), equal(item, x)) for i, x in enumerate(container.items)]) if container.items else False)]
         if isinstance(container, (tuple, ListV, LitSet)):
@@ -770,7 +776,7 @@ class Engine(object):
                 return [(st, b_or(*[equal(item, x) for x in vals]))]
         if (self.pure or self.pure_depth) and (container is NONE or isinstance(container, OptV)):
             return [(st, False)]      # spec expressions are total
-        raise EngineError("'in' on %s" % type(container).__name__)
+        raise EngineError("'in' on %s (item %s)" % (type(container).__name__, type(item).__name__))
 
     def ev_IfExp(self, node, st):
         out = []
@@ -1540,6 +1546,19 @@ class Engine(object):
         return out
 
     def call(self, fv, args, kwargs, st, node):
+        """(the handlers of assumed contracts - spec `externals` - are written for the shapes the unchanged code produces; when
+        changed code reaches one with another shape, e.g. a trace whose length became symbolic at a merge, the handler's own
+        failure means "outside the verified subset", not a crash of the checker)"""
+        try:
+            return self._call(fv, args, kwargs, st, node)
+        except (AttributeError, KeyError, IndexError, TypeError) as e:
+            import traceback as _tb
+            frames_ = _tb.extract_tb(e.__traceback__)
+            if any("/specs/" in (f.filename or "") for f in frames_[-2:]):
+                raise EngineError("assumed contract (external) not applicable here: %s: %s" % (type(e).__name__, e))
+            raise
+
+    def _call(self, fv, args, kwargs, st, node):
         from . import builtins_model
         if isinstance(fv, FuncV):
             if fv.bound is None and not isinstance(fv.node, ast.Lambda):
